@@ -82,6 +82,9 @@ KERNELS = [
                 (r"\bthis->", "self->", (5, 12))]),
 ]
 
+from props.c03 import KERNELS_C as _SYMCTOR  # the constructor kernels (specs shared with C03)
+KERNELS += _SYMCTOR
+HARNESS_S = os.path.join(VERIF, "harness", "c06s.c")
 CHK = ["--signed-overflow-check", "--div-by-zero-check", "--bounds-check", "--pointer-check"]
 STATIC_FACTS = []
 
@@ -134,6 +137,14 @@ def jobs(tier, gen_dir):
         out.append(Job("c06/lemma_schedule/S=%d" % S, HARNESS, "h_lemma_schedule", kind="lemma", kernels=["K_get_subset_num"], flags=CHK,
                        no_base_flags=True, min_obligations=1, timeout=TO, object_bits=10, replace=["K_get_subset_num"],
                        defines={"C06_S": S}, params={"num_subsets": S}, backend="kissat"))
+    # the class invariant SYM_VALID: established by the constructor (cylindrical branch)
+    for k, lc in (("K_sym_ctor_init", False), ("K_sym_ctor_flags", True)):
+        out.append(Job("c06/" + k, HARNESS_S, "h_" + k, enforce=k, kernels=[k], flags=CHK, no_base_flags=True, timeout=120, min_obligations=3, backend="kissat", loop_contracts=lc,
+                       replay="symctor"))
+    out.append(Job("c06/lemma_sym_valid", HARNESS_S, "h_lemma_sym_valid", kind="lemma", kernels=["K_sym_ctor_init", "K_sym_ctor_flags"], replace=["K_sym_ctor_init", "K_sym_ctor_flags"],
+                   flags=CHK, no_base_flags=True, timeout=120, min_obligations=2, backend="kissat"))
+    out.append(Job("c06/canary/K_sym_ctor_flags", HARNESS_S, "h_K_sym_ctor_flags", enforce="K_sym_ctor_flags", kernels=["K_sym_ctor_flags"], kind="canary", loop_contracts=True,
+                   defines={"CANARY_K_sym_ctor_flags": None}, expect_fail=r"K_sym_ctor_flags\.postcondition", no_base_flags=True, timeout=120))
     enforce("K_ir_reconstruct_loop", lc=True)
     out.append(Job("c06/canary/K_ir_reconstruct_loop", HARNESS, "h_K_ir_reconstruct_loop", enforce="K_ir_reconstruct_loop", kernels=["K_ir_reconstruct_loop"], kind="canary",
                    defines={"CANARY_K_ir_reconstruct_loop": None}, loop_contracts=True, expect_fail=r"K_ir_reconstruct_loop\.postcondition", no_base_flags=True, timeout=300,
@@ -154,7 +165,7 @@ def jobs(tier, gen_dir):
 
 TRUSTED = [
     "std::vector<ViewSegmentNumbers> modelled as a bounded array (capacity 8 asserted) / as ghost counters for the subset output",
-    "SYM_VALID is what the DataSymmetriesForBins_PET_CartesianGrid constructor establishes: proved under C03 (kernels K_sym_ctor_init / K_sym_ctor_flags, lemma_sym_valid) for cylindrical scanners; used here as a precondition",
+    "SYM_VALID is what the DataSymmetriesForBins_PET_CartesianGrid constructor establishes: proved here (kernels K_sym_ctor_init / K_sym_ctor_flags, lemma_sym_valid; float and dynamic_cast conditions nondeterministic) for cylindrical scanners, assumed for BlocksOnCylindrical",
     "view range of the data is [0,num_views) when view symmetries are enabled; segment range symmetric when swap_segment is enabled",
     "randomly_permute_subset_order delivers a permutation (assumed contract in the get_subset_num job)",
     "callers loop over all TOF bins around the view-segment list (not checked here)",
@@ -201,6 +212,10 @@ def replay(job, o, workroot, repo):
         for start in (2, S, S + 1, 1):
             for r in (1, 0):
                 cands.append(["subset_num", S, start, 0, r, 3 * S])
+    elif kern in ("K_sym_ctor_init", "K_sym_ctor_flags"):
+        for nv in (6, 10, 14, 8, 12, 5, 7, 30):
+            for flags in ((1, 1, 1), (0, 1, 1), (1, 0, 0)):
+                cands.append(["partition", nv, min(S if isinstance(S, int) else 3, nv), 1] + list(flags))
     elif kern in ("K_balanced_count", "K_balanced_verdict"):
         # no direct counterexample mapping (the verdict loop's array is symbolic): sweep view counts around the job's number of subsets
         for nv in (8, 12, 16, 6, 10, 20, 24, 30, 32, 36, 48):
@@ -222,5 +237,5 @@ def replay(job, o, workroot, repo):
         st, detail = native.run(exe, c)
         if st == "confirmed":
             return {"status": "confirmed", "detail": detail, "command": "c06_replay " + " ".join(map(str, c)),
-                    "from_verifier_counterexample": c is cands[0] and ((kern == "K_get_subset_num" and sub is not None) or (kern not in ("K_get_subset_num", "K_balanced_count", "K_balanced_verdict") and bool(nvc)))}
+                    "from_verifier_counterexample": c is cands[0] and ((kern == "K_get_subset_num" and sub is not None) or (kern not in ("K_get_subset_num", "K_balanced_count", "K_balanced_verdict", "K_sym_ctor_init", "K_sym_ctor_flags") and bool(nvc)))}
     return {"status": "not-reproduced", "detail": "%d native runs" % len(cands)}
